@@ -60,6 +60,47 @@ func specialYs(sps []oracle.Subpath, pls []oracle.Polyline) []specialY {
 	return out
 }
 
+// extremeLevelQueries puts queries exactly on the level of every interior y-extreme of a curved
+// segment (computed in closed form): left of the shape, between every two consecutive crossings
+// of the outline on that level, and right of the shape. The ray of such a query touches the
+// curve; the winding number of the query point itself is well defined (queries too close to
+// the outline are skipped by the caller).
+func extremeLevelQueries(sps []oracle.Subpath, pls []oracle.Polyline, lo, hi oracle.Pt) []oracle.Pt {
+	var out []oracle.Pt
+	for _, sp := range sps {
+		for _, sg := range sp.Segs {
+			if !sg.IsCurve() {
+				continue
+			}
+			for _, t := range sg.AxisExtremaParams(1) {
+				if t <= 1e-9 || t >= 1-1e-9 {
+					continue
+				}
+				y := oracle.SegAt(sg, t).Y
+				var xs []float64
+				for _, pl := range pls {
+					n := len(pl.P)
+					for k := 0; k < n; k++ {
+						a, b := pl.P[k], pl.P[(k+1)%n]
+						if (a.Y <= y) != (b.Y <= y) {
+							xs = append(xs, a.X+(y-a.Y)*(b.X-a.X)/(b.Y-a.Y))
+						}
+					}
+				}
+				xs = append(xs, oracle.SegAt(sg, t).X) // the touch point itself
+				sort.Float64s(xs)
+				out = append(out, oracle.Pt{X: lo.X - 0.7313, Y: y}, oracle.Pt{X: hi.X + 0.6171, Y: y})
+				for k := 0; k+1 < len(xs); k++ {
+					if xs[k+1]-xs[k] > 1e-3 {
+						out = append(out, oracle.Pt{X: xs[k] + 0.43*(xs[k+1]-xs[k]), Y: y})
+					}
+				}
+			}
+		}
+	}
+	return out
+}
+
 // bandQueries puts a query into every cell of the horizontal decomposition of the shape: between
 // every two consecutive special levels (vertices, curve extremes) one level is taken, and on it
 // one point left of the shape and one between every two consecutive crossings of the outline.
@@ -141,6 +182,7 @@ func checkShape(r *fw.R, d []float64, flat bool) {
 	lo, hi, _ := oracle.BBox(pls)
 	lat, gen := queries(lo, hi)
 	gen = append(gen, bandQueries(sps, pls, lo)...)
+	gen = append(gen, extremeLevelQueries(sps, pls, lo, hi)...)
 	p := cv.Path(d)
 	before := append([]float64(nil), p.Data()...)
 	vertex := map[oracle.Pt]bool{}
@@ -567,10 +609,24 @@ func families(tier string) []fw.Family {
 			g := oracle.Digits(i, len(tri3nd), 3, 4)
 			return oracle.Fmt(curvedData(tri3nd[g[0]], g[1], []int{0, 1, 4, 6}[g[2]])) + " CCW"
 		}}
+	// one cubic closed by its chord: control points over [-2..2]^2, four end points; includes the
+	// S-shaped cubics whose local y-extreme level is crossed again by the same cubic
+	cubicEnds := []oracle.Pt{{X: 3, Y: 0}, {X: 3, Y: 2}, {X: 2, Y: 3}, {X: 3, Y: -2}}
+	cubicData := func(i int64) []float64 {
+		g := oracle.Digits(i, 5, 5, 5, 5, len(cubicEnds))
+		e := cubicEnds[g[4]]
+		return []float64{oracle.CmdMove, 0, 0, oracle.CmdMove,
+			oracle.CmdCube, float64(g[0] - 2), float64(g[1] - 2), float64(g[2] - 2), float64(g[3] - 2), e.X, e.Y, oracle.CmdCube,
+			oracle.CmdClose, 0, 0, oracle.CmdClose}
+	}
+	cubicFam := fw.Family{Name: "one lattice cubic closed by its chord (control points in [-2..2]^2, 4 end points)", N: 625 * int64(len(cubicEnds)),
+		Check: func(i int64, r *fw.R) { checkShape(r, cubicData(i), false) },
+		Desc:  func(i int64) string { return oracle.Fmt(cubicData(i)) + " x lattice, band and extreme-level query points" }}
 	fs := []fw.Family{
 		ellFam,
 		curvedCCW,
 		crescentFamily(),
+		cubicFam,
 		flatFam("tri(L4)/rot closed", tri4, false),
 		flatFam("quad(L3) closed", quad3, false),
 		curvedFam("tri(L3)/rot with one curved edge (quad in/out, cubic S, 4 arcs)", tri3nd),
